@@ -1411,6 +1411,7 @@ def f32_next(r, up):
     return struct.unpack('<f', struct.pack('<I', bits))[0]
 
 
+TERM_LIMIT = 24          # symbolic terms larger than this are replaced by an opaque site atom
 CMP_NEG = {'Eq': 'Ne', 'Ne': 'Eq', 'Lt': 'Ge', 'Ge': 'Lt', 'Le': 'Gt', 'Gt': 'Le'}
 CMP_SWAP = {'Eq': 'Eq', 'Ne': 'Ne', 'Lt': 'Gt', 'Gt': 'Lt', 'Le': 'Ge', 'Ge': 'Le'}
 
@@ -1420,7 +1421,7 @@ def mkterm(op, *args):
         if a is None:
             return None
     t = T(op, *args)
-    if term_size(t, 24) > 24:
+    if term_size(t, TERM_LIMIT) > TERM_LIMIT:
         return None
     return t
 
@@ -1852,6 +1853,11 @@ class InterpOps:
     def assume_cmp(self, st, op, ta, tb, negated=False):
         """negated: `op` is the complement of a comparison found false (for floats the operands
         may then still be NaN)"""
+        if op in ('Eq', 'Ne'):
+            # the path already established the opposite (a == b and a != b cannot both hold, NaN or not)
+            ng = 'Ne' if op == 'Eq' else 'Eq'
+            if (ng, ta, tb) in st.facts or (ng, tb, ta) in st.facts:
+                return False
         A = self.ival(st, ta)
         B = self.ival(st, tb)
         if not (negated and ((A is not None and isinstance(A[2], bool) and A[2]) or (B is not None and isinstance(B[2], bool) and B[2]))):
@@ -3177,7 +3183,7 @@ class Engine(Interp, InterpOps, CallMixin, ZoneMixin):
                         break
                     if not pl['p']:
                         st.cells[(frame.depth, pl['l'])] = v
-                        if frame.info.part_locals and pl['l'] in frame.info.part_locals and v[0] == 'I' and v[1] == v[2]:
+                        if frame.info.part_locals and pl['l'] in frame.info.part_locals and v[0] in ('I', 'F') and v[1] == v[2]:
                             nm = frame.info.part_locals[pl['l']]
                             st.tags = frozenset(tg for tg in st.tags if not (tg[0] == 'P' and tg[1] == frame.pathid and tg[2] == nm)) \
                                 | {('P', frame.pathid, nm, v[1])}
